@@ -266,6 +266,11 @@ func parseContractText(lines []string, file string, pkgPath string, voc *Vocab) 
 		switch {
 		case word == "func":
 			key := qualifyKey(rest, pkgPath)
+			for _, c := range out {
+				if c.Key == key {
+					return fail(fmt.Errorf("%s:%d: second contract block for %s (the first is silently shadowed otherwise)", file, lineNo, key))
+				}
+			}
 			cur = &Contract{Key: key, File: file, Loops: map[int]*LoopSpec{}, Calls: map[string]*CallSpec{}, Allocs: map[int]*CExpr{}, MayPanic: map[int]bool{}, Closures: map[int]*Contract{}}
 			top = cur
 			out = append(out, cur)
